@@ -420,7 +420,7 @@ class NativeMonotone(NativeCheck):
                    'the relaxation; restrictive switches give a subset')
     bound = ('demo inputs (test/files: 6 GVFs, 9 transcripts), complexity limits disabled (-1); ordered pairs: miscleavage 0<1<2<3, '
              'min_length 9>7>5, max_length 15<25<35, min_mw 1000>500>0, SECT / W2F / coding-novel-orf off<on, one GVF added at a time, '
-             'noncanonical-transcripts and backsplicing-only vs unrestricted; quick 10 pairs, thorough all (~30); plus SECT off<on on test/files/fuzz/51 with its circRNA')
+             'noncanonical-transcripts and backsplicing-only vs unrestricted; quick 10 pairs, thorough all (~30); plus SECT off<on on test/files/fuzz/51 with its circRNA and W2F off<on with a TGG>TTT variant')
     quick_budget_s = 200
     thorough_budget_s = 900
     _cache = {}
@@ -430,12 +430,26 @@ class NativeMonotone(NativeCheck):
         key = repr(sorted(kw.items(), key=str))
         if key not in self._cache:
             gv = kw.pop('gvfs', None)
+            recs = kw.pop('gvf_records', None)
+            tmp = None
+            if recs is not None:
+                import tempfile, os
+                hdr = [l.rstrip('\n') for l in open(cv_run.DATA / 'vep/vep_gSNP.gvf') if l.startswith('#')]
+                fd, tmp = tempfile.mkstemp(prefix='verif_c05_', suffix='.gvf')
+                with os.fdopen(fd, 'w') as fh:
+                    fh.write('\n'.join(hdr + list(recs)) + '\n')
+                gv = [tmp]
             opts = dict(max_variants_per_node=[-1], additional_variants_per_misc=[-1])
             for nm in ('genome_fasta', 'annotation_gtf', 'proteome_fasta'):
                 if nm in kw:
                     kw[nm] = cv_run.DATA / kw[nm]
             opts.update(kw)
-            f, _ = cv_run.run_call_variant(gvfs=gv, **opts)
+            try:
+                f, _ = cv_run.run_call_variant(gvfs=gv, **opts)
+            finally:
+                if tmp:
+                    import os
+                    os.unlink(tmp)
             self._cache[key] = f
         return self._cache[key]
 
@@ -461,6 +475,9 @@ class NativeMonotone(NativeCheck):
         ref51 = dict(genome_fasta='fuzz/51/genome.fasta', annotation_gtf='fuzz/51/annotation.gtf', proteome_fasta='fuzz/51/proteome.fasta',
                      gvfs=['fuzz/51/fake_circ_rna.gvf'])
         pairs.append((dict(ref51), dict(ref51, selenocysteine_termination=True), 'selenocysteine_termination'))
+        # a variant that turns a tryptophan codon into a phenylalanine codon (TGG -> TTT), demo reference
+        w_to_f = dict(gvf_records=['ENSG00000128408.9\t1135\tMNV-1135-GG-TT\tGG\tTT\t.\t.\tTRANSCRIPT_ID=ENST00000614167.2;GENOMIC_POSITION=chr22:1135;GENE_SYMBOL=RIBC2'])
+        pairs.append((dict(w_to_f), dict(w_to_f, w2f_reassignment=True), 'w2f_reassignment'))
         for a, b, what in pairs:
             yield dict(strict=a, relaxed=b, what=what)
 
